@@ -316,9 +316,37 @@ fn classify_step(st: &StepT, s: &StepOut, rule_files: &[(String, Vec<String>, us
                         }
                     }
                 }
+                // rule names the run reports as evaluated: from the rule-name fields of JSON
+                // reports, or as `<file>/<rule>` in console text (a data value or key that merely
+                // contains the same text is not a report of the rule)
+                let mut reported: Vec<String> = Vec::new();
+                let docs: Option<Vec<serde_json::Value>> = crate::c12::parse_json_stream(so.as_bytes());
+                let mut json_seen = false;
+                if let Some(docs) = docs {
+                    let mut stack: Vec<serde_json::Value> = docs;
+                    while let Some(v) = stack.pop() {
+                        match v {
+                            serde_json::Value::Array(a) => stack.extend(a),
+                            serde_json::Value::Object(o) => {
+                                if o.contains_key("not_compliant") || o.contains_key("compliant") {
+                                    json_seen = true;
+                                    for k in ["compliant", "not_applicable"] {
+                                        if let Some(a) = o.get(k).and_then(|x| x.as_array()) {
+                                            reported.extend(a.iter().filter_map(|x| x.as_str().map(String::from)));
+                                        }
+                                    }
+                                    if let Some(a) = o.get("not_compliant").and_then(|x| x.as_array()) {
+                                        reported.extend(a.iter().filter_map(|e| e.get("Rule").and_then(|r| r.get("name")).and_then(|n| n.as_str()).map(String::from)));
+                                    }
+                                }
+                            }
+                            _ => {}
+                        }
+                    }
+                }
                 for rn in rule_names {
-                    // whole-token occurrence of the rule name in any report on stdout
-                    if so.split(|c: char| !(c.is_ascii_alphanumeric() || c == '_')).any(|t| t == rn) {
+                    let hit = if json_seen { reported.iter().any(|x| x == rn) } else { so.contains(&format!("{}/{}", fname, rn)) };
+                    if hit {
                         out.push(Finding { sig: "parse-rejected-file-evaluated".into(), what: format!("rules file {} failed to parse but its rule {} appears in the report", fname, rn) });
                         break;
                     }
